@@ -51,7 +51,7 @@ def self_test_models(v: Verdict, models: list[tuple[str, str, str]]) -> None:
 
 def validate_traces(v: Verdict, spec: str, invariants: list[str], records: list[dict], site_fn, clause_props=None,
                     batch: int = 4000, label: str = "", what_fn=None, env_extra: dict | None = None, spec_name: str = "Spec",
-                    per_trace_states: int = 2) -> int:
+                    per_trace_states: int = 2, drift_clauses=()) -> int:
     """(C->S) hand recorded executions to TLC.  Every violated T_ invariant becomes a verdict
     for this property (or for nothing, if clause_props says the clause belongs elsewhere).
     Returns the number of traces accepted."""
@@ -89,6 +89,15 @@ def validate_traces(v: Verdict, spec: str, invariants: list[str], records: list[
                 clause = viol["inv"]
                 bad.add(tid)
                 if clause_props is not None and clause not in clause_props:
+                    continue
+                if clause in drift_clauses:
+                    # a clause about unspecified detail (listed last, so every property-level clause
+                    # holds in this state): the model needs updating, the property is not violated
+                    n = v.cov.get("drift", 0)
+                    v.cov["drift"] = n + 1
+                    if n < 3:
+                        print(f"DRIFT property={v.prop} clause={clause}: the implementation differs from the model in a detail the "
+                              f"property does not prescribe ({(what_fn(rec, clause) if what_fn else '')[:120]})", flush=True)
                     continue
                 v.violation(clause, site_fn(rec, clause), {"spec": spec, "invariants": invariants, "record": rec},
                             what=(what_fn(rec, clause) if what_fn else ""))
